@@ -56,8 +56,12 @@ type Ctx struct {
 	epochN    int
 	dry       bool
 	writes    map[string]bool // heap keys written (collected during dry runs and always)
-	nonFresh  map[string]bool // heap keys written at objects not allocated by this run
-	freshRefs map[string]bool // reference terms returned by allocations
+	nonFresh  map[string]bool // heap keys written in a way that cannot be attributed to an object (opaque writes)
+	freshRefs map[string]bool // reference terms returned by allocations of this run (of this loop body in a dry run)
+	writeBases map[string]map[string]Term // heap key -> objects written (not allocated by this run)
+	defined   map[string]bool // SMT symbols introduced so far
+	volatile  map[string]bool // heap keys written by spawned goroutines (reads are unconstrained)
+	volatileAll bool
 	fn        *ssa.Function
 	oblCount  map[string]int
 	rootFrame *frame
@@ -75,7 +79,10 @@ func (c *Ctx) fork() *Ctx {
 	n.oblCount = cloneMap(c.oblCount)
 	n.writes = map[string]bool{}
 	n.nonFresh = map[string]bool{}
-	n.freshRefs = cloneMap(c.freshRefs)
+	n.freshRefs = map[string]bool{}
+	n.writeBases = map[string]map[string]Term{}
+	n.defined = cloneMap(c.defined)
+	n.volatile = cloneMap(c.volatile)
 	n.decls = c.decls[:len(c.decls):len(c.decls)]
 	n.body = c.body[:len(c.body):len(c.body)]
 	n.obls = c.obls[:len(c.obls):len(c.obls)]
@@ -115,6 +122,7 @@ func (c *Ctx) fresh(hint, sort string) Term {
 	name := quote(fmt.Sprintf("%s!%d", hint, c.counter[hint]))
 	c.ensureSort(sort)
 	c.emit(fmt.Sprintf("(declare-const %s %s)", name, sort))
+	c.defined[name] = true
 	return Term{name, sort}
 }
 
@@ -126,6 +134,7 @@ func (c *Ctx) name(hint string, t Term) Term {
 	c.counter[hint]++
 	name := quote(fmt.Sprintf("%s!%d", hint, c.counter[hint]))
 	c.emit(fmt.Sprintf("(define-fun %s () %s %s)", name, t.Sort, t.S))
+	c.defined[name] = true
 	return Term{name, t.Sort}
 }
 
@@ -482,6 +491,13 @@ func (c *Ctx) newEpoch() *heapState {
 // heapGet returns the current version of a heap array, declaring the epoch's initial
 // constant on first use.
 func (c *Ctx) heapGet(h *heapState, key, sort string) Term {
+	if key != allocKey && (c.volatileAll || c.volatile[key]) {
+		// written by a concurrently running goroutine: every read sees an arbitrary value
+		nv := c.fresh(key+"~volatile", sort)
+		c.eng.heapSorts[key] = sort
+		h.arrays[key] = nv
+		return nv
+	}
 	if t, ok := h.arrays[key]; ok {
 		return t
 	}
@@ -489,6 +505,7 @@ func (c *Ctx) heapGet(h *heapState, key, sort string) Term {
 	c.ensureSort(sort)
 	name := quote(fmt.Sprintf("%s@%d", key, h.epoch))
 	c.decl("heap "+name, fmt.Sprintf("(declare-const %s %s)", name, sort))
+	c.defined[name] = true
 	return Term{name, sort}
 }
 
@@ -508,9 +525,36 @@ func (c *Ctx) heapSetAt(h *heapState, key string, t Term, base Term) {
 	c.eng.heapSorts[key] = t.Sort
 	c.writes[key] = true
 	if !c.freshRefs[base.S] {
-		c.nonFresh[key] = true
+		if c.writeBases[key] == nil {
+			c.writeBases[key] = map[string]Term{}
+		}
+		c.writeBases[key][base.S] = base
 	}
 	h.arrays[key] = c.name(key, t)
+}
+
+// symbolsDefined reports whether every quoted symbol of a term was introduced before (the term is
+// meaningful outside the loop body that computed it).
+func symbolsDefined(t string, defined map[string]bool) bool {
+	for i := 0; i < len(t); i++ {
+		if t[i] != '|' {
+			continue
+		}
+		j := strings.IndexByte(t[i+1:], '|')
+		if j < 0 {
+			return false
+		}
+		name := t[i : i+j+2]
+		i += j + 1
+		if strings.HasPrefix(name, "|get ") || strings.HasPrefix(name, "|mk ") || strings.HasPrefix(name, "|S ") || strings.HasPrefix(name, "|pure ") ||
+			strings.HasPrefix(name, "|unbox ") || strings.HasPrefix(name, "|box ") || strings.HasPrefix(name, "|glob ") || strings.HasPrefix(name, "|func ") || strings.HasPrefix(name, "|str ") {
+			continue
+		}
+		if !defined[name] {
+			return false
+		}
+	}
+	return true
 }
 
 const allocKey = "A nalloc"
